@@ -46,6 +46,10 @@ func init() {
 				}
 			})
 			c.Inputs(spaces.Emph3, c.Pick(13, 16), c11Driver)
+			// Whole delimiter runs as tokens: every token is one stack entry of a
+			// known class, so 6-7 tokens give stacks that the symbol alphabets only
+			// reach at 18-25 symbols.
+			c.Inputs(spaces.XDRuns, c.Pick(6, 7), c11Driver)
 		},
 	})
 }
